@@ -423,6 +423,26 @@ def run_api(sv, tier, docname, k, n, res):
             if want != got:
                 res.fail({'layer': 'select-vs-match', 'doc': docname, 'selector': pat},
                          {'kind': 'select-vs-match', 'selector': pat}, f'[{docname}] select({pat!r}) = {got}, asking element by element = {want}')
+        # filter(iterable) judges every item on its own (the item is its own :scope): whatever the container type and the order of the items,
+        # the verdict on an element is the verdict match() gives for it alone
+        import bs4
+        for pat in API_SELECTORS + [':scope', ':not(:scope)', ':scope > *', ':is(:scope, p)', ':has(> :scope)']:
+            doc = build_doc(spec)
+            els = T.elements(doc)
+            try:
+                want = [i for i, e in enumerate(els) if sv.match(pat, e)]
+                views = {'ResultSet': sv.filter(pat, bs4.ResultSet(None, els)), 'list': sv.filter(pat, list(els)),
+                         'reversed': list(reversed(sv.filter(pat, list(reversed(els))))), 'find_all': sv.filter(pat, doc.find_all(True))}
+            except Exception as e:
+                res.fail({'layer': 'filter-vs-match', 'doc': docname, 'selector': pat}, {'kind': 'raise:' + type(e).__name__, 'selector': pat}, repr(e))
+                continue
+            for name, g in views.items():
+                got = [i for i, e in enumerate(els) if any(e is x for x in g)]
+                res.evaluations += 1
+                if got != want:
+                    res.fail({'layer': 'filter-vs-match', 'doc': docname, 'selector': pat}, {'kind': 'filter-iterable-vs-match', 'container': name, 'scope': 'scope' in pat},
+                             f'[{docname}] filter({pat!r}, <{name} of all elements>) keeps {got}, match() element by element says {want}')
+                    break
     res.count('api_sequences', count)
     res.count('transitions', count * depth)
     res.count('states', 1)
@@ -623,6 +643,18 @@ def replay(case):
         mut(doc)
         got = api_call(sv, doc, T.elements(doc), ('select', case['q2'], -1))
         return None if got == want else ({'kind': 'stale-answer-after-edit', 'mutation': case['mutation'], 'selector': case['q2']}, f'{got} vs {want}')
+    if case['layer'] == 'filter-vs-match':
+        import bs4
+        doc = build_doc(spec)
+        els = T.elements(doc)
+        pat = case['selector']
+        want = [i for i, e in enumerate(els) if sv.match(pat, e)]
+        for name, g in (('ResultSet', sv.filter(pat, bs4.ResultSet(None, els))), ('list', sv.filter(pat, list(els))),
+                        ('reversed', list(reversed(sv.filter(pat, list(reversed(els)))))), ('find_all', sv.filter(pat, doc.find_all(True)))):
+            got = [i for i, e in enumerate(els) if any(e is x for x in g)]
+            if got != want:
+                return {'kind': 'filter-iterable-vs-match', 'container': name}, f'{got} vs {want}'
+        return None
     if case['layer'] == 'select-vs-match':
         doc = build_doc(spec)
         els = T.elements(doc)
